@@ -74,6 +74,9 @@ func ReplayDir() string {
 	if d := os.Getenv("VERIF_REPLAYS"); d != "" {
 		return d
 	}
+	if d := os.Getenv("VERIF_DIR"); d != "" {
+		return filepath.Join(d, "replays")
+	}
 	return "/verif/replays"
 }
 
